@@ -98,6 +98,11 @@ func (a *Act) doCall(st *State, com *ssa.CallCommon, pos tokenPos, site ssa.Valu
 		return a.invoke(st, com, pos)
 	}
 	callee := a.staticCallee(com)
+	if callee != nil {
+		if v, ok := a.sortCall(st, callee, com, pos); ok {
+			return v
+		}
+	}
 	args := a.argVals(com)
 	var env []Val
 	if mc, ok := com.Value.(*ssa.MakeClosure); ok {
@@ -111,7 +116,11 @@ func (a *Act) doCall(st *State, com *ssa.CallCommon, pos tokenPos, site ssa.Valu
 		}
 		if name, ok := a.assumedCallback(com.Value); ok {
 			a.u.Trusted["assumed: callback "+name+" does not touch the modelled heap ("+fnName(a.fn)+")"] = true
-			return a.freshResult(st, sig)
+			res := a.freshResult(st, sig)
+			if fc := a.top.fc; fc != nil && fc.CallbackRank != nil {
+				a.traceEvent(st, fc, name, args, pos, res, sig)
+			}
+			return res
 		}
 		return a.opaqueCall(st, "dynamic call "+com.Value.Name()+" in "+fnName(a.fn), sig, pos)
 	}
@@ -511,4 +520,109 @@ func (a *Act) assumedCallback(v ssa.Value) (string, bool) {
 		}
 	}
 	return "", false
+}
+
+// sortSliceArg returns the slice-typed SSA value sorted by a call to sort.Slice / sort.SliceStable /
+// slices.SortFunc / slices.SortStableFunc, or nil.
+func sortSliceArg(callee *ssa.Function, com *ssa.CallCommon) ssa.Value {
+	switch intrinsicKey(callee) {
+	case "sort.Slice", "sort.SliceStable":
+		if mi, ok := com.Args[0].(*ssa.MakeInterface); ok {
+			if _, isSlice := types.Unalias(mi.X.Type()).Underlying().(*types.Slice); isSlice {
+				return mi.X
+			}
+		}
+	case "slices.SortFunc", "slices.SortStableFunc", "slices.Sort", "golang.org/x/exp/slices.SortFunc", "golang.org/x/exp/slices.SortStableFunc", "golang.org/x/exp/slices.Sort":
+		if _, isSlice := types.Unalias(com.Args[0].Type()).Underlying().(*types.Slice); isSlice {
+			return com.Args[0]
+		}
+	}
+	return nil
+}
+
+// sortCall: sorting permutes the elements of the slice in place: the element heap is havoced for the
+// backing array of that slice only; length and identity of the slice are unchanged. The comparison
+// function is assumed to have no effect on the modelled heap (listed as trusted).
+func (a *Act) sortCall(st *State, callee *ssa.Function, com *ssa.CallCommon, pos tokenPos) (Val, bool) {
+	sv := sortSliceArg(callee, com)
+	if sv == nil {
+		return Val{}, false
+	}
+	a.u.Trusted["intrinsic "+intrinsicKey(callee)+" (permutes the slice in place; comparator assumed effect-free)"] = true
+	s := a.term(sv)
+	et := types.Unalias(sv.Type()).Underlying().(*types.Slice).Elem()
+	for _, lh := range a.elemHeaps(et) {
+		old := st.heap(lh.name, lh.sort)
+		nh := a.u.D.Fresh(lh.name, lh.sort)
+		a.u.Fact(fmt.Sprintf("(forall ((r Ref)) (! (=> (or (= (sarr %s) nil) (not (= (rid r) (rid (sarr %s))))) (= (select %s r) (select %s r))) :pattern ((select %s r))))", s, s, nh, old, nh))
+		st.setHeap(lh.name, lh.sort, nh)
+	}
+	return Val{}, true
+}
+
+// ---- ghost event trace of callback calls ---------------------------------------------------------
+
+const (
+	traceLen  = "T_len"
+	traceKind = "T_kind"
+	traceArg0 = "T_arg0"
+	traceArg1 = "T_arg1"
+	traceErr  = "T_err"
+)
+
+var traceSorts = map[string]string{traceLen: "Int", traceKind: "(Array Int Int)", traceArg0: "(Array Int Ref)", traceArg1: "(Array Int Ref)", traceErr: "(Array Int Bool)"}
+
+func callbackKind(fc *FuncContract, name string) int {
+	for i, c := range fc.Callbacks {
+		if c == name {
+			return i + 1
+		}
+	}
+	return 0
+}
+
+// rankTerm maps an event kind term to its rank.
+func rankTerm(fc *FuncContract, kind Term) Term {
+	t := Term("(- 1)")
+	for i := len(fc.Callbacks) - 1; i >= 0; i-- {
+		t = ite(eq(kind, intLit(int64(i+1))), intLit(int64(fc.CallbackRank[fc.Callbacks[i]])), t)
+	}
+	return t
+}
+
+func (a *Act) traceEvent(st *State, fc *FuncContract, name string, args []Val, pos tokenPos, res Val, sig *types.Signature) {
+	ln := st.heap(traceLen, "Int")
+	kinds := st.heap(traceKind, traceSorts[traceKind])
+	kind := callbackKind(fc, name)
+	rank := fc.CallbackRank[name]
+	// order obligation: every event of this call so far has a rank <= the rank of this event
+	l0 := a.entry.heap(traceLen, "Int")
+	goal := fmt.Sprintf("(forall ((i Int)) (=> (and (<= %s i) (< i %s)) (<= %s %d)))", l0, ln, rankTerm(fc, sel(kinds, "i")), rank)
+	a.oblige(st, "order", name, pos, "callback "+name+" is dispatched after all callbacks of lower rank and before those of higher rank", goal)
+	st.assume(app(">=", ln, "0"))
+	st.setHeap(traceKind, traceSorts[traceKind], store(kinds, ln, intLit(int64(kind))))
+	for i, h := range []string{traceArg0, traceArg1} {
+		v := Term("nil")
+		if i < len(args) && a.u.D.SortOf(args[i].Typ) == "Ref" && args[i].Loc == nil {
+			v = args[i].T
+		} else if i < len(args) && args[i].Loc != nil && args[i].Loc.RootT != nil && len(args[i].Loc.Path) == 0 {
+			v = args[i].Loc.Ref
+		}
+		st.setHeap(h, traceSorts[h], store(st.heap(h, traceSorts[h]), ln, v))
+	}
+	// did the callback report an error? (last result of interface type)
+	failed := Term("false")
+	if n := sig.Results().Len(); n > 0 {
+		last := res
+		if res.Tuple != nil {
+			last = res.Tuple[n-1]
+		}
+		if a.u.D.SortOf(sig.Results().At(n-1).Type()) == "Iface" {
+			failed = not(eq(app("itag", last.T), "0"))
+		}
+	}
+	st.setHeap(traceErr, traceSorts[traceErr], store(st.heap(traceErr, traceSorts[traceErr]), ln, failed))
+	nl := a.u.D.Fresh("tlen", "Int")
+	a.u.Fact(eq(nl, app("+", ln, "1")))
+	st.setHeap(traceLen, "Int", nl)
 }
